@@ -32,7 +32,7 @@ from cirq.ops import control_values as cv, controlled_gate, raw_types
 class GlobalPhaseGate(raw_types.Gate):
     def __init__(self, coefficient: cirq.TParamValComplex, atol: float = 1e-8) -> None:
         if not isinstance(coefficient, sympy.Basic):
-            if abs(1 - abs(coefficient)) > atol:
+            if not abs(1 - abs(coefficient)) <= atol:
                 raise ValueError(f'Coefficient is not unitary: {coefficient!r}')
         self._coefficient = coefficient
 
@@ -48,7 +48,11 @@ class GlobalPhaseGate(raw_types.Gate):
 
     def __pow__(self, power) -> cirq.GlobalPhaseGate:
         if isinstance(power, (int, float)):
-            return GlobalPhaseGate(self.coefficient**power)
+            coefficient = self.coefficient
+            if not isinstance(coefficient, sympy.Basic):
+                # A fractional power of a negative numpy real is nan; the complex power is meant.
+                coefficient = complex(coefficient)
+            return GlobalPhaseGate(coefficient**power)
         return NotImplemented
 
     def _unitary_(self) -> np.ndarray | NotImplementedType:
